@@ -102,6 +102,47 @@ fn is_tracing_macro(m: &syn::Macro) -> bool {
     m.path.segments.first().map(|s| s.ident == "tracing").unwrap_or(false)
 }
 
+/// Field value expressions of a tracing macro that may panic when evaluated: split the argument list at top-level commas,
+/// take the right-hand side of `name = expr` (sigils `%`/`?` stripped), keep those that contain arithmetic, indexing or
+/// unwrap/expect.
+fn tracing_field_exprs(mac: &syn::Macro) -> Vec<String> {
+    let mut parts: Vec<Vec<proc_macro2::TokenTree>> = vec![vec![]];
+    for t in mac.tokens.clone() {
+        match &t {
+            proc_macro2::TokenTree::Punct(p) if p.as_char() == ',' => parts.push(vec![]),
+            _ => parts.last_mut().unwrap().push(t),
+        }
+    }
+    let mut out = Vec::new();
+    for part in parts {
+        // find a top-level `=` that is not part of `==`, `<=`, `>=`, `!=`
+        let mut eq = None;
+        for (i, t) in part.iter().enumerate() {
+            if let proc_macro2::TokenTree::Punct(p) = t {
+                if p.as_char() == '=' {
+                    let prev_joint = i > 0 && matches!(&part[i - 1], proc_macro2::TokenTree::Punct(q) if q.spacing() == proc_macro2::Spacing::Joint);
+                    if p.spacing() == proc_macro2::Spacing::Alone && !prev_joint { eq = Some(i); break; }
+                }
+            }
+        }
+        let Some(i) = eq else { continue };
+        let mut rhs: Vec<proc_macro2::TokenTree> = part[i + 1..].to_vec();
+        while matches!(rhs.first(), Some(proc_macro2::TokenTree::Punct(p)) if p.as_char() == '%' || p.as_char() == '?') { rhs.remove(0); }
+        if rhs.is_empty() { continue; }
+        let risky = rhs.iter().enumerate().any(|(k, t)| match t {
+            proc_macro2::TokenTree::Punct(p) => matches!(p.as_char(), '+' | '*' | '/') || (p.as_char() == '-' && k > 0 && !matches!(&rhs[k - 1], proc_macro2::TokenTree::Punct(_))) || (p.as_char() == '%' && k > 0),
+            proc_macro2::TokenTree::Group(g) => g.delimiter() == proc_macro2::Delimiter::Bracket,
+            proc_macro2::TokenTree::Ident(id) => id == "unwrap" || id == "expect",
+            _ => false,
+        });
+        if risky {
+            let ts: proc_macro2::TokenStream = rhs.into_iter().collect();
+            out.push(ts.to_string());
+        }
+    }
+    out
+}
+
 /// Collects the automatic rewrites for one item.
 struct Auto<'a> {
     src: &'a Src,
@@ -183,7 +224,15 @@ impl<'a, 'ast> Visit<'ast> for Auto<'a> {
         match s {
             syn::Stmt::Macro(m) if is_tracing_macro(&m.mac) => {
                 let r = self.src.range(s);
-                self.push(r, "", "R1-tracing");
+                // field values that can panic (arithmetic, indexing, unwrap) are evaluated whenever the callsite is enabled:
+                // keep them as `let _ = <expr>;` so that overflow / bounds obligations are generated for them
+                let kept = tracing_field_exprs(&m.mac);
+                if kept.is_empty() {
+                    self.push(r, "", "R1-tracing");
+                } else {
+                    let t: String = kept.iter().map(|e| format!("let _ = {};", e)).collect::<Vec<_>>().join(" ");
+                    self.push(r, &t, "R1-tracing-keep-partial-field-exprs");
+                }
                 return;
             }
             syn::Stmt::Macro(m) if m.mac.path.is_ident("assert_eq") || m.mac.path.is_ident("assert_ne") || m.mac.path.is_ident("assert") => {
@@ -669,6 +718,8 @@ fn edits_text(src: &Src, range: (usize, usize), edits: &[Edit]) -> Result<String
     Ok(ls.into_iter().map(|(t, _, _)| t).collect::<Vec<_>>().join("\n"))
 }
 
+fn skel_cfg_present(dirs: &[Dir]) -> bool { dirs.iter().any(|d| matches!(d, Dir::SkelCfg(_))) }
+
 fn local_fn_table(src: &Src) -> BTreeMap<String, Vec<(String, bool)>> {
     let mut t: BTreeMap<String, Vec<(String, bool)>> = BTreeMap::new();
     for it in &src.file.items {
@@ -1014,6 +1065,8 @@ fn do_extract(args: &BTreeMap<String, String>) -> Result<(), String> {
     // ---- L2 pre-pass: registry of skeletonised functions ("Type::fn" -> (skeleton name, returns Result))
     let mut skel_cfg = skel::Cfg::default();
     let mut inlined_helpers: Vec<String> = Vec::new();
+    let mut all_fn_names: Vec<String> = Vec::new();
+    let mut pure_checks: Vec<(String, String, usize, Option<String>)> = Vec::new();
     // parameter names the contract texts were written against (committed baseline): a renamed parameter is renamed in the
     // contract/hint texts of that function as well (R22)
     let params_baseline: serde_json::Value = args.get("params-baseline").and_then(|p| std::fs::read_to_string(p).ok()).and_then(|t| serde_json::from_str(&t).ok()).unwrap_or(json!({}));
@@ -1050,6 +1103,104 @@ fn do_extract(args: &BTreeMap<String, String>) -> Result<(), String> {
                 _ => {}
             }
         }
+    }
+    // functions that are new to the crate (not in the committed baseline of function names): callable across files from skeletons
+    if skel_cfg_present(&dirs) {
+        let base: Vec<String> = args.get("fn-baseline").and_then(|p| std::fs::read_to_string(p).ok()).and_then(|t| serde_json::from_str::<serde_json::Value>(&t).ok())
+            .and_then(|v| v.get("names").and_then(|n| n.as_array()).map(|a| a.iter().filter_map(|x| x.as_str().map(|s| s.to_string())).collect())).unwrap_or_default();
+        let mut all_names: Vec<String> = Vec::new();
+        let mut newfns: Vec<skel::NewFn> = Vec::new();
+        let mut files: Vec<String> = Vec::new();
+        let mut pure_srcs: Vec<&'static Src> = Vec::new();
+        fn walk(dir: &std::path::Path, root: &std::path::Path, out: &mut Vec<String>) {
+            if let Ok(rd) = std::fs::read_dir(dir) {
+                let mut es: Vec<_> = rd.flatten().collect();
+                es.sort_by_key(|e| e.path());
+                for e in es {
+                    let p = e.path();
+                    if p.is_dir() { if p.file_name().map(|n| n != "tests").unwrap_or(true) { walk(&p, root, out); } }
+                    else if p.extension().map(|x| x == "rs").unwrap_or(false) && p.file_name().map(|n| n != "tests.rs").unwrap_or(true) {
+                        if let Ok(r) = p.strip_prefix(root) { out.push(r.to_string_lossy().to_string()); }
+                    }
+                }
+            }
+        }
+        walk(&std::path::Path::new(repo).join("src"), std::path::Path::new(repo), &mut files);
+        for f in files {
+            let Ok(sr) = Src::load(repo, &f) else { continue };
+            let sr: &'static Src = Box::leak(Box::new(sr));
+            pure_srcs.push(sr);
+            let lf: &'static BTreeMap<String, Vec<(String, bool)>> = Box::leak(Box::new(local_fn_table(sr)));
+            for (name, cands) in lf.iter() {
+                all_names.push(name.clone());
+                if !base.is_empty() && !base.contains(name) {
+                    for (owner, retres) in cands { newfns.push(skel::NewFn { name: name.clone(), owner: owner.clone(), retres: *retres, src: sr, local_fns: lf }); }
+                }
+            }
+        }
+        all_names.sort(); all_names.dedup();
+        all_fn_names = all_names;
+        // ---- functions the skeleton rules treat as effect-free (`pure` list) really are: token scan of their bodies, and
+        // of the crate functions they call, for mutating filesystem / lock / thread operations ----
+        const MUTATORS: &[&str] = &["create", "create_new", "rename", "remove_file", "remove_dir", "remove_dir_all", "create_dir", "create_dir_all",
+            "set_len", "set_permissions", "hard_link", "symlink", "persist", "persist_noclobber", "OpenOptions", "NamedTempFile", "tempfile", "tempdir",
+            "sync_all", "sync_data", "spawn", "write_all_at", "write_at"];
+        let leaked: Vec<&'static Src> = pure_srcs.clone();
+        fn body_idents(src: &Src, name: &str, out: &mut Vec<(String, String, usize)>) {
+            // (owner, text of body, line) for every fn `name` in the file
+            for it in &src.file.items {
+                match it {
+                    syn::Item::Fn(f) if f.sig.ident == name => out.push((String::new(), src.slice(src.range(&*f.block)).to_string(), src.line_of(src.range(f).0))),
+                    syn::Item::Impl(im) => for ii in &im.items { if let syn::ImplItem::Fn(f) = ii { if f.sig.ident == name { out.push((type_name(&im.self_ty), src.slice(src.range(&f.block)).to_string(), src.line_of(src.range(f).0))); } } },
+                    _ => {}
+                }
+            }
+        }
+        let crate_fns: Vec<String> = all_fn_names.clone();
+        for pname in skel_cfg.pure.iter() {
+            if !crate_fns.contains(pname) { continue; }
+            // skip names that are also std method names used on std receivers (their crate namesakes are registered skeletons or trivial)
+            let mut stack: Vec<String> = vec![pname.clone()];
+            let mut seen: Vec<String> = vec![];
+            let mut hit: Option<String> = None;
+            let mut first_loc: Option<(String, usize)> = None;
+            while let Some(n) = stack.pop() {
+                if seen.contains(&n) || seen.len() > 40 { continue; }
+                seen.push(n.clone());
+                for sr in leaked.iter() {
+                    let mut bodies = vec![];
+                    body_idents(sr, &n, &mut bodies);
+                    for (owner, text, line) in bodies {
+                        // a definition that is itself a registered skeleton is modelled by its skeleton, not by the `pure` rule
+                        let key = if owner.is_empty() { n.clone() } else { format!("{}::{}", owner, n) };
+                        if registry.contains_key(&key) { continue; }
+                        if first_loc.is_none() { first_loc = Some((sr.rel.clone(), line)); }
+                        // comments and string literals do not count
+                        let mut clean = String::new();
+                        {
+                            let cs: Vec<char> = text.chars().collect();
+                            let mut i = 0;
+                            while i < cs.len() {
+                                if cs[i] == '/' && i + 1 < cs.len() && cs[i + 1] == '/' { while i < cs.len() && cs[i] != '\n' { i += 1; } }
+                                else if cs[i] == '/' && i + 1 < cs.len() && cs[i + 1] == '*' { i += 2; while i + 1 < cs.len() && !(cs[i] == '*' && cs[i + 1] == '/') { i += 1; } i += 2; }
+                                else if cs[i] == '"' { i += 1; while i < cs.len() && cs[i] != '"' { if cs[i] == '\\' { i += 1; } i += 1; } i += 1; clean.push(' '); }
+                                else { clean.push(cs[i]); i += 1; }
+                            }
+                        }
+                        let text = clean;
+                        let toks: Vec<&str> = text.split(|c: char| !(c.is_alphanumeric() || c == '_')).filter(|t| !t.is_empty()).collect();
+                        for t in toks.iter() {
+                            if MUTATORS.contains(t) && hit.is_none() { hit = Some(format!("`{}` in {} ({}:{})", t, n, sr.rel, line)); }
+                            if crate_fns.iter().any(|c| c == t) && !skel_cfg.pure.iter().any(|p| p == t) && *t != n && !seen.iter().any(|s| s == t) && !registry.keys().any(|k| k.ends_with(&format!("::{}", t)) || k == t) { stack.push(t.to_string()); }
+                        }
+                    }
+                }
+            }
+            if let Some((f, l)) = first_loc {
+                pure_checks.push((pname.clone(), f, l, hit));
+            }
+        }
+        skel::NEW_FNS.with(|v| { *v.borrow_mut() = newfns.into_iter().map(|f| { let r: &'static skel::NewFn = Box::leak(Box::new(f)); r }).collect(); });
     }
     // R20 pre-pass: helpers to expand at their call sites
     let mut inline_defs: Vec<InlineDef> = Vec::new();
@@ -1528,6 +1679,14 @@ fn do_extract(args: &BTreeMap<String, String>) -> Result<(), String> {
         auto_lines.push(OutLine { text: "}".into(), src: None, func: Some(fdisp.clone()), label: None });
         auto_funcs.push(json!({"name": fdisp, "source": file, "src_line": found_line, "kind": "skel", "has_contract": true, "external_body": false}));
     }
+    for (pname, file, line, hit) in pure_checks.iter() {
+        let fdisp = format!("pure {}", pname);
+        auto_lines.push(OutLine { text: format!("// `{}` is treated as effect-free by the skeleton rules ({}:{}){}", pname, file, line, match hit { Some(h) => format!(" — but its body (or a callee) uses {}", h), None => String::new() }), src: Some((file.clone(), *line)), func: Some(fdisp.clone()), label: None });
+        auto_lines.push(OutLine { text: format!("pub fn purecheck_{}() {{", pname), src: Some((file.clone(), *line)), func: Some(fdisp.clone()), label: None });
+        auto_lines.push(OutLine { text: format!("    assert(/*@declared_pure_function_has_no_effect*/ {});", hit.is_none()), src: Some((file.clone(), *line)), func: Some(fdisp.clone()), label: Some(format!("{}::declared_pure_function_has_no_effect", fdisp)) });
+        auto_lines.push(OutLine { text: "}".into(), src: None, func: Some(fdisp.clone()), label: None });
+        auto_funcs.push(json!({"name": fdisp, "source": file, "src_line": line, "kind": "skel", "has_contract": true, "external_body": false}));
+    }
     if !auto_lines.is_empty() {
         // insert before the tail include (the closing of verus!)
         let pos = em.lines.iter().rposition(|l| l.text.starts_with("// ---- include lib/tail.rs")).unwrap_or(em.lines.len());
@@ -1592,7 +1751,7 @@ fn do_extract(args: &BTreeMap<String, String>) -> Result<(), String> {
     let m = json!({
         "unit": unit, "spec": spec_path, "lines": map, "rewrites": em.rules,
         "functions": em.functions, "trusted": trusted, "missing_optional_anchors": em.missing_anchors.iter().filter(|m| !m.starts_with("closure-without-contract:")).cloned().collect::<Vec<_>>(),
-        "closures_without_contract": em.missing_anchors.iter().filter_map(|m| m.strip_prefix("closure-without-contract: ")).map(|m| { let p: Vec<&str> = m.split(" | ").collect(); json!({"fn": p[0], "passed_to": p[1], "params": p[2], "line": p[3]}) }).collect::<Vec<_>>(), "unclassified_calls": em.unknown_calls, "inlined_helpers": inlined_helpers, "param_names": param_names_out,
+        "closures_without_contract": em.missing_anchors.iter().filter_map(|m| m.strip_prefix("closure-without-contract: ")).map(|m| { let p: Vec<&str> = m.split(" | ").collect(); json!({"fn": p[0], "passed_to": p[1], "params": p[2], "line": p[3]}) }).collect::<Vec<_>>(), "unclassified_calls": em.unknown_calls, "inlined_helpers": inlined_helpers, "crate_fn_names": all_fn_names, "param_names": param_names_out,
     });
     std::fs::write(map_path, serde_json::to_string(&m).unwrap()).map_err(|e| format!("{map_path}: {e}"))?;
     Ok(())
